@@ -92,8 +92,8 @@ pub fn run(tier: Tier, replay: Option<&J>) -> i32 {
     let start = Instant::now();
     pcf::self_test();
     let depth = match tier {
-        Tier::Quick => 2,
-        Tier::Thorough => 3,
+        Tier::Quick => 3,
+        Tier::Thorough => 5,
     };
     let bases = base_texts(depth);
     let only = replay.and_then(|r| r["base_idx"].as_u64()).map(|x| x as usize);
@@ -242,7 +242,7 @@ pub fn run(tier: Tier, replay: Option<&J>) -> i32 {
                 inputs.push(vec![a, b]);
             }
         }
-        inputs.extend(crate::c06::byte_universe(if tier == Tier::Quick { 4 } else { 6 }));
+        inputs.extend(crate::c06::byte_universe(if tier == Tier::Quick { 5 } else { 7 }));
         for (i, inp) in inputs.iter().enumerate() {
             st.states += 1;
             st.evaluations += 1;
